@@ -187,7 +187,7 @@ def tlc_sim(module, cfg, wdir, num, depth, seed, timeout=300):
     return {"behaviours": behs, "wall_s": dt, "violated": violated, "out": out}
 
 
-def tlc_trace(module, cfg_in, consts, trace, wdir, timeout=1800, extra_modules=()):
+def tlc_trace(module, cfg_in, consts, trace, wdir, timeout=1800, extra_modules=(), workers=1):
     """Validate one ndjson trace file.  Returns dict(viol=[...], drift=[...], accepted, states)."""
     os.makedirs(wdir, exist_ok=True)
     with open(os.path.join(SPEC, cfg_in)) as f:
@@ -202,7 +202,7 @@ def tlc_trace(module, cfg_in, consts, trace, wdir, timeout=1800, extra_modules=(
     meta = os.path.join(wdir, "meta_trace_" + module)
     env = {"TRACE": trace,
            "JAVA_TOOL_OPTIONS": "-Xss1g -Dtlc2.tool.queue.IStateQueue=StateDeque"}
-    cmd = ["tlc", "-workers", "1", "-metadir", meta, "-cleanup", "-noGenerateSpecTE",
+    cmd = ["tlc", "-workers", str(workers), "-metadir", meta, "-cleanup", "-noGenerateSpecTE",
            "-config", cfgp, os.path.join(SPEC, module + ".tla")]
     rc, out, dt = sh(cmd, cwd=wdir, env=env, timeout=timeout)
     shutil.rmtree(meta, ignore_errors=True)
